@@ -168,6 +168,9 @@ def _observations(seed):
     az, el = rng.uniform(-180, 180), rng.uniform(-90, 90)
     if rng.random() < 0.2:
         az, el = rng.choice([0., 90., -90., 180.]), rng.choice([0., 90., -90.])
+    elif rng.random() < 0.2:
+        # steep, but not vertical: the azimuth still matters
+        el = rng.choice([-1., 1.])*(90.0 - 10.0**rng.uniform(-3, -1))
     nodes = [grid.nodes_x, grid.nodes_y, grid.nodes_z]
     p = []
     for d in range(3):
